@@ -237,9 +237,9 @@ func r05_4(c *Ctx, r *Report) {
 	}
 	if fn := c.Fn(r, rule, "calendar.computeMonth"); fn != nil && len(fn.Params) == 1 {
 		recv := ssa.Value(fn.Params[0])
-		loops, _ := findLoops(fn)
 		nLoops := 0
-		for _, li := range loops {
+		for _, site := range termSearchSites(fn) {
+			li := site.li
 			var startPhi *ssa.Phi
 			for _, ins := range li.header.Instrs {
 				if phi, ok := ins.(*ssa.Phi); ok && structName(phi.Type()) == "Solar" {
@@ -302,7 +302,7 @@ func r05_4(c *Ctx, r *Report) {
 							return 0, false
 						}, problems, rest)
 						ev := &evaluator{inline: inlineLibrary, leaf: leaf}
-						fr := &evalFrame{fn: fn, phiFrom: map[*ssa.BasicBlock]*ssa.BasicBlock{entry: li.header}}
+						fr := &evalFrame{fn: site.fn, parent: site.parent, call: site.call, phiFrom: map[*ssa.BasicBlock]*ssa.BasicBlock{entry: li.header}}
 						_, outcome := ev.runFrame(fr, entry, func(b *ssa.BasicBlock) bool { return b == li.header || !li.body[b] })
 						n++
 						if !strings.HasPrefix(outcome, "stop:") {
@@ -391,6 +391,19 @@ func r05_6(c *Ctx, r *Report) {
 		}
 	}
 	sort.Slice(searches, func(i, j int) bool { return searches[i].exit.Index < searches[j].exit.Index })
+	if len(searches) == 0 {
+		// the searches live in a function literal or helper: their results are the values of its two calls
+		var calls []*ssa.Call
+		for _, site := range termSearchSites(fn) {
+			if site.call != nil && (len(calls) == 0 || calls[len(calls)-1] != site.call) && isIntType(site.call.Type()) {
+				calls = append(calls, site.call)
+			}
+		}
+		if len(calls) == 2 {
+			r05_6_calls(c, r, rule, fn, calls)
+			return
+		}
+	}
 	if len(searches) != 2 {
 		r.bad(rule, "calendar.computeMonth: two term searches with a merged index", c.fnPos(fn), fmt.Sprintf("%d found (undecided = fail)", len(searches)))
 		return
@@ -447,4 +460,107 @@ func r05_6(c *Ctx, r *Report) {
 		ps := sortedProblemKeys(problems)
 		r.check(len(ps) == 0 && n == 160, rule, "calendar.computeMonth: "+ganField+"/"+zhiField+" from the term index and the year stem ("+variant+")", c.pos(sr.idx.Pos()), fmt.Sprintf("%d (index, year stem) pairs followed; deviations: %v", n, headList(ps, 3)))
 	}
+}
+
+
+// termSearchSite: a loop that searches the term table for the interval the moment lies in (it carries the start of
+// the interval, a *Solar, from one iteration to the next), in fn itself or in a function literal or unexported
+// helper that fn calls — then once per call, in a frame whose parameters and captured variables resolve to fn's.
+type termSearchSite struct {
+	fn     *ssa.Function
+	li     *loopInfo
+	parent *evalFrame
+	call   *ssa.Call
+}
+
+func solarCarryingLoops(f *ssa.Function) []*loopInfo {
+	loops, _ := findLoops(f)
+	var out []*loopInfo
+	for _, li := range loops {
+		for _, ins := range li.header.Instrs {
+			if phi, ok := ins.(*ssa.Phi); ok && structName(phi.Type()) == "Solar" {
+				out = append(out, li)
+				break
+			}
+		}
+	}
+	sort.Slice(out, func(i, j int) bool { return out[i].header.Index < out[j].header.Index })
+	return out
+}
+
+func termSearchSites(fn *ssa.Function) []termSearchSite {
+	var out []termSearchSite
+	for _, li := range solarCarryingLoops(fn) {
+		out = append(out, termSearchSite{fn: fn, li: li})
+	}
+	top := &evalFrame{fn: fn}
+	for _, b := range fn.Blocks {
+		for _, ins := range b.Instrs {
+			call, ok := ins.(*ssa.Call)
+			if !ok {
+				continue
+			}
+			callee := call.Common().StaticCallee()
+			if callee == nil || callee.Blocks == nil || callee == fn {
+				continue
+			}
+			if callee.Parent() == nil && (callee.Object() == nil || callee.Object().Exported() || callee.Pkg != fn.Pkg) {
+				continue
+			}
+			for _, li := range solarCarryingLoops(callee) {
+				out = append(out, termSearchSite{fn: callee, li: li, parent: top, call: call})
+			}
+		}
+	}
+	return out
+}
+
+
+// r05_6_calls: R05.6 when the two term searches are calls (of a function literal or helper) whose results are the
+// term indices: computeMonth is then followed as a whole, the two results being abstract inputs.
+func r05_6_calls(c *Ctx, r *Report, rule string, fn *ssa.Function, calls []*ssa.Call) {
+	recv := ssa.Value(fn.Params[0])
+	first := []int64{2, 4, 6, 8, 0}
+	problems := map[string]bool{}
+	n := 0
+	for k := int64(-3); k <= 12; k++ {
+		for g := int64(0); g < 10 && len(problems) < 6; g++ {
+			leaf := func(fr *evalFrame, v ssa.Value) (interface{}, bool) {
+				if fr.parent == nil && (v == ssa.Value(calls[0]) || v == ssa.Value(calls[1])) {
+					return k, true
+				}
+				if rc, f, ok := getterField(c, v); ok && (f == "Lunar.yearGanIndexByLiChun" || f == "Lunar.yearGanIndexExact") {
+					if ofr, o := fr.origin(rc); ofr.parent == nil && o == recv {
+						return g, true
+					}
+				}
+				return nil, false
+			}
+			ev := &evaluator{inline: inlineLibrary, leaf: leaf}
+			fr := &evalFrame{fn: fn, phiFrom: map[*ssa.BasicBlock]*ssa.BasicBlock{}}
+			_, outcome := ev.runFrame(fr, nil, nil)
+			n++
+			if outcome != "return" {
+				problems["computeMonth could not be followed: "+outcome+" "+ev.fail] = true
+				continue
+			}
+			gRef := g
+			if k < 0 {
+				gRef = g + 1
+			}
+			wantGan := floorMod(first[gRef%5]+k, 10)
+			wantZhi := floorMod(k+2, 12)
+			for _, fs := range [][2]string{{"monthGanIndex", "monthZhiIndex"}, {"monthGanIndexExact", "monthZhiIndexExact"}} {
+				gi, zi := fieldIndexOf(recv, fs[0]), fieldIndexOf(recv, fs[1])
+				if got := fr.mem[memKey{recv, gi}]; got != interface{}(wantGan) {
+					problems[fmt.Sprintf("term index %d, year stem %d: %s %v, expected %d", k, g, fs[0], got, wantGan)] = true
+				}
+				if got := fr.mem[memKey{recv, zi}]; got != interface{}(wantZhi) {
+					problems[fmt.Sprintf("term index %d: %s %v, expected %d", k, fs[1], got, wantZhi)] = true
+				}
+			}
+		}
+	}
+	ps := sortedProblemKeys(problems)
+	r.check(len(ps) == 0 && n == 160, rule, "calendar.computeMonth: month stem and branch from the term index and the year stem (both variants)", c.fnPos(fn), fmt.Sprintf("%d (index, year stem) pairs followed; deviations: %v", n, headList(ps, 3)))
 }
